@@ -522,6 +522,19 @@ impl Relayer {
                 }
             }
 
+            // `into_view` re-derives proposals_hash and extra_hash: the body (proposals, uncles,
+            // extension) must be the one the announced header commits to
+            if block.hash() != compact_block_hash {
+                return ReconstructionResult::Error(
+                    StatusCode::CompactBlockHasUnmatchedTransactionRootWithReconstructedBlock
+                        .with_context(format!(
+                            "reconstructed block {} is not the announced block {}",
+                            block.hash(),
+                            compact_block_hash,
+                        )),
+                );
+            }
+
             ReconstructionResult::Block(block)
         } else {
             let missing_indexes: Vec<usize> = block_transactions
